@@ -783,6 +783,13 @@ struct BulkWorld : World
       g_watch_free = hsrc;
       g_watch_freed = 0;
     }
+    // the buffer may lie in the memory of the OTHER live sandbox: for this sandbox that is a foreign buffer like any other -
+    // what comes back must lie in this sandbox's own memory
+    if (NS == 2 && !free_src && (((uint64_t)op.a[5] >> 3) & 1) && num >= 1 && num <= S / 2) {
+      src = (char*)impl[1]->mem.base + ((uint64_t)op.a[4] % (S - num));
+      src_ok = true;
+      C->probe("grant_of_buffer_in_other_live_sandbox");
+    }
     Snap before = snap();
     bool copied = false;
     TP<char> got = nullptr;
